@@ -86,5 +86,49 @@ def main():
     sys.exit(0)
 
 
+def main_more():
+    """whole controller runs with integer / float constant-Q models; the built-in Q(V) areas at their own break points"""
+    import logging
+    logging.disable(logging.CRITICAL)
+    from pandapower.control.controller.DERController import QModelConstQ
+    fails = []
+    # (1) run_control with a constant Q set point: the reactive power written to the sgen lies inside the area at the solved voltage
+    for q_set, vm_ext in ((0, 0.90), (0., 0.90), (0, 1.14), (1, 0.90), (-1, 1.14), (0.2, 1.0), (-1., 1.14)):
+        net = pp.create_empty_network()
+        b0 = pp.create_bus(net, 110.); b1 = pp.create_bus(net, 110.)
+        pp.create_ext_grid(net, b0, vm_pu=vm_ext)
+        pp.create_line_from_parameters(net, b0, b1, 1., 0.1, 0.3, 10., 1.)
+        pp.create_sgen(net, b1, p_mw=10., q_mvar=0., sn_mva=20.)
+        area = M.PQVArea4120V2()
+        DERController(net, [0], q_model=QModelConstQ(q_set), pqv_area=area)
+        pp.runpp(net, run_control=True)
+        p_pu, q_pu, vm = net.sgen.p_mw.at[0] / 20., net.sgen.q_mvar.at[0] / 20., net.res_bus.vm_pu.at[b1]
+        qmin, qmax = area.q_flexibility(pd.Series([p_pu]), pd.Series([vm]))[0]
+        if not (qmin - 1e-4 <= q_pu <= qmax + 1e-4):
+            fails.append(f"DERController(q_model=QModelConstQ({q_set!r}), pqv_area=PQVArea4120V2()) at vm = {vm:.4f}: q = {q_pu:.4f} p.u. is outside "
+                         f"the area's reactive flexibility [{qmin:.4f}, {qmax:.4f}]")
+    # (2) a Q(V) characteristic is piecewise continuous: at each of its own break points the interval equals the limit from one side
+    for name in [a for a in dir(M) if a.startswith("PQVArea") and a != "PQVAreaPOLYGON"]:
+        try:
+            area = getattr(M, name)()
+        except Exception:
+            continue
+        qv = getattr(area, "qv_area", None)
+        if qv is None:
+            continue
+        pts = sorted({float(getattr(qv, a)) for a in ("min_vm_pu", "max_vm_pu") if hasattr(qv, a)} |
+                     {float(qv.min_vm_pu + qv.delta_vm_pu), float(qv.max_vm_pu - qv.delta_vm_pu)} if hasattr(qv, "delta_vm_pu") else set())
+        for v in pts:
+            vals = [np.asarray(qv.q_flexibility(pd.Series([0.5]), pd.Series([x])), float)[0] for x in (v - 1e-9, v, v + 1e-9)]
+            if not (np.allclose(vals[1], vals[0], atol=1e-6) or np.allclose(vals[1], vals[2], atol=1e-6)):
+                fails.append(f"{name}: Q(V) flexibility at its break point vm = {v:.6f} is {np.round(vals[1], 4).tolist()}, just below it is "
+                             f"{np.round(vals[0], 4).tolist()} and just above {np.round(vals[2], 4).tolist()}")
+    for f in fails:
+        print("REPRODUCED:", f)
+    if not fails:
+        print("not reproduced: constant-Q runs stay inside the area; Q(V) areas have no isolated values at their break points")
+    sys.exit(1 if fails else 0)
+
+
 if __name__ == "__main__":
     main()
